@@ -89,6 +89,7 @@ type phaseRec struct {
 	Spec      phaseSpec           `json:"spec"`
 	C0        int                 `json:"-"`
 	C0N       string              `json:"cache_before"`
+	C0Unsure  bool                `json:"cache_before_may_be_empty,omitempty"` // a 200 answer with an empty key set came after the last real download
 	BeginSeq  int64               `json:"begin"`
 	Calls     []*callRec          `json:"calls"`
 	Downloads []fakejwks.Download `json:"downloads"`
@@ -113,6 +114,7 @@ type roundExec struct {
 	srv    *fakejwks.Server
 	gids   map[int64]bool // caller goroutines of the whole round
 	cache  int            // shape index the model says is cached at the barrier (-1: nothing)
+	unsure bool           // ... or nothing at all: a well-formed but EMPTY set was downloaded since (grey: the statement is silent)
 	nextID int
 }
 
@@ -128,6 +130,7 @@ func newRoundExec(spec roundSpec) *roundExec {
 	} else {
 		ks = rp.NewRemoteKeySet(srv.Client(), "https://op.example/jwks")
 	}
+	srv.SetAltBody(foreignDocument())
 	return &roundExec{ks: ks, ksPtr: reflect.ValueOf(ks).Pointer(), srv: srv, gids: map[int64]bool{}, cache: -1}
 }
 
@@ -292,7 +295,7 @@ func (rx *roundExec) cancelPoint(ph *phaseRec, c *callRec) string {
 
 // runPhase executes one phase and returns its record. ok=false: watchdog (the round is abandoned, inconclusive).
 func (rx *roundExec) runPhase(ps phaseSpec) (*phaseRec, bool) {
-	ph := &phaseRec{Spec: ps, C0: rx.cache, C0N: shapeName(rx.cache)}
+	ph := &phaseRec{Spec: ps, C0: rx.cache, C0N: shapeName(rx.cache), C0Unsure: rx.unsure}
 	rx.srv.BeginPhase(document(ps.Shape), ps.Script, ps.Def)
 	ph.BeginSeq = mon.Seq()
 	for _, cs := range ps.Callers {
@@ -387,8 +390,11 @@ func (rx *roundExec) runPhase(ps phaseSpec) (*phaseRec, bool) {
 	}
 	ph.Downloads = rx.srv.Log()
 	for _, d := range ph.Downloads {
-		if d.OK() {
-			rx.cache = ps.Shape
+		switch {
+		case d.OK():
+			rx.cache, rx.unsure = ps.Shape, false
+		case d.EmptySet():
+			rx.unsure = rx.cache != -1
 		}
 	}
 	return ph, true
